@@ -244,6 +244,10 @@ func init() {
 		Gen: func(r *rand.Rand, tier string, idx int) Case {
 			o := defaultOpts()
 			o.keys = []string{"a", "b", "c", "k1"}
+			if r.Intn(4) == 0 && idx%8 != 6 && idx%8 != 7 {
+				// member names are literal: a dot or the empty name is not a path
+				o.keys = []string{"a", "a.b", "", "x.y.z", "app.kubernetes.io/name", "b"}
+			}
 			a := genDoc(r, o)
 			switch idx % 8 {
 			case 6:
